@@ -161,9 +161,17 @@ def run(ctx):
         ctx.violation({"rule": "C20.noRace", "where": "stopOverlap"}, "data race reported by the race detector in the stop overlap scenarios", detail=r.stdout[-6000:])
     elif r.returncode != 0:
         raise vlib.Inconclusive("lockx TestStopOverlap failed:\n" + r.stdout[-3000:])
+    # graphsync calling back into the adapter (which holds its request-map / channel lock across the call into the manager) while the channel's
+    # cleanup handler - which needs those locks - is held at its gate: real manager + real adapter
+    out5 = ctx.path("lock-cbcleanup.ndjson")
+    r = ctx.run_go(b, "TestCallbackDuringCleanup", env={"VERIF_OUT": out5}, timeout=600)
+    if "DATA RACE" in r.stdout:
+        ctx.violation({"rule": "C20.noRace", "where": "callbackDuringCleanup"}, "data race reported by the race detector in the callback-during-cleanup scenarios", detail=r.stdout[-6000:])
+    elif r.returncode != 0:
+        raise vlib.Inconclusive("lockx TestCallbackDuringCleanup failed:\n" + r.stdout[-3000:])
     both = ctx.path("lock-obs.ndjson")
     with open(both, "w") as f:
-        for p in (out1, out2, out3, out4):
+        for p in (out1, out2, out3, out4, out5):
             if os.path.exists(p):
                 f.write(open(p).read())
     n, verdicts = stages.judge(ctx, both, module="LockJudge")
